@@ -13,7 +13,7 @@
 (* Regression.  yt, yp integer vectors, MissCode in yt = missing-coded truth (skipped).  With m present cells:   *)
 (*   MSE = SSE/m   MAE = SAE/m   RMSE^2 = MSE   R2 = 1 - SSE/SST = (D - m SSE)/D,  D = m Syy - Sy^2 = m SST       *)
 (*   BIAS = |1 - slope| , slope = sum yp (yt - mean) / sum yt (yt - mean) = (m Spy - Sy Sp)/D                    *)
-EXTENDS Integers, Sequences, FiniteSets, TLC, Json, Rat
+EXTENDS Integers, Sequences, FiniteSets, TLC, Json, Rat, StatsOut
 CONSTANTS FamSet,          \* case families to enumerate: "Roc", "Reg", "PlsReg", "Mlr", "PlsDa"
           MaxN,            \* Roc: truth vectors x score orders for 2..MaxN objects
           MaxNMiss,        \* Roc: a missing-coded truth is allowed up to this length
@@ -180,4 +180,51 @@ ThLayout == (st = 1 /\ fam \in Tables) => /\ L!LayoutBijective
                                            /\ (fam = "PlsDa" => \A cc \in 0..(ny * nlv - 1) : Cardinality({PredCol(cc)[i] : i \in 1..TRows}) = TRows)
 ThTablesDistinguish == (st = 1 /\ fam \in {"PlsReg", "PlsDa"} /\ ny > 1 /\ nlv > 1) =>         \* the data tell the LV-major layout from the transposed one
                        \E lv \in 1..nlv, j \in 1..ny : PredCol(L!Col(lv, j - 1)) # PredCol(nlv * (j - 1) + lv - 1)
+
+(* ---- further theorems of the definitions (round 3) -------------------------------------------------- *)
+Flip(t) == [i \in DOMAIN t |-> IF t[i] = 2 THEN 2 ELSE 1 - t[i]]
+Swap(c) == [i \in DOMAIN c |-> <<c[i][2], c[i][1]>>]
+ThLabelSwap == On("Roc") => /\ Roc(Flip(y), z) = Swap(Roc(y, z))                                   \* exchanging the two classes mirrors the curve
+                            /\ Area2(Roc(Flip(y), z)) = 2 * P(y) * N(y) - Area2(Roc(y, z))        \* ... and gives 1 - AUC
+Separated(t, o) == \A a, b \in 1..Len(o) : (t[o[a]] = 0 /\ t[o[b]] = 1) => b < a                   \* every positive ranked above every negative
+ThPerfectRanking == On("Roc") => /\ (Area2(Roc(y, z)) = 2 * P(y) * N(y) <=> Separated(y, z))      \* AUC = 1 iff the scores separate the classes
+                                 /\ (Area2(Roc(y, z)) = 0 <=> Separated(y, Rev(z)))               \* AUC = 0 iff they separate them the wrong way round
+ThMissingTransparent == (On("Roc") /\ \E i \in 1..n : y[i] = 2) =>                                 \* a missing-coded object changes nothing, wherever it is ranked
+                        LET i == CHOOSE q \in 1..n : y[q] = 2
+                            s == ScoreOf(z)
+                            s2 == [q \in 1..(n - 1) |-> IF q < i THEN s[q] ELSE s[q + 1]]
+                        IN Roc(Drop(y, i), OrdOf(s2)) = Roc(y, z) /\ Pr(Drop(y, i), OrdOf(s2)) = Pr(y, z)
+ThPrPoints == On("Roc") => \A i \in 1..Len(Pr(y, z)) : LET c == Pr(y, z) IN                        \* precision in [0,1]; recall steps exactly where the truth is positive
+                              /\ c[i][1] <= c[i][2]
+                              /\ c[i][1] - (IF i = 1 THEN 0 ELSE c[i - 1][1]) \in {0, 1}
+(* the sums over the present cells computed by index recursion (what TraceStats uses for long vectors) agree with the set recursion *)
+RECURSIVE SumIdx(_, _, _)
+SumIdx(f, yt, i) == IF i = 0 THEN 0 ELSE (IF yt[i] = MissCode THEN 0 ELSE f[i]) + SumIdx(f, yt, i - 1)
+ThSumIdx == On("Reg") => /\ SumIdx([i \in 1..n |-> (z[i] - y[i]) * (z[i] - y[i])], y, n) = SSE(y, z)
+                         /\ SumIdx([i \in 1..n |-> 1], y, n) = Cnt(y)
+
+(* ---- tolerances of the validate direction (units of 1e-12), functions of the LOGGED input ----------- *)
+(* Inputs are integers v fed as (v + off) * 2^ex: sums, differences yp - yt and squares are exact in binary64, so MSE / MAE / RMSE   *)
+(* carry only the final division (Tol).  R2 and BIAS centre on the mean: the mean of values near off is rounded to                  *)
+(* delta <= |off| * 2^-53 (in input units), the centred sums absorb it to SECOND order: sum (d_i - delta)^2 = SST + m delta^2, so    *)
+(* the relative error of SST (and of the slope's denominator) is  m delta^2 / SST = m^2 delta^2 / D  with D = m Syy - Sy^2 = m SST. *)
+(* In units of 1e-12:  m^2 off^2 2^-106 1e12 / D  <=  OffUnits(off, m) / D  with OffUnits = m^2 off^2 2^-66 (rounded up in stages   *)
+(* that keep every product inside 32 bits); a factor 2 covers the same effect on the numerator sums.  Without an offset the          *)
+(* allowance is 0: the tolerance of the classes that existed before is not touched.  The result's absolute error scales with         *)
+(* |1 - result| (R2 = 1 - SSE/SST), hence the factor RelTo.                                                                         *)
+OffUnits(off, m) == LET a == Abs(off) \div 32768
+                        A == (a * a) \div 65536 + 1
+                    IN (A * m * m) \div 1048576 + 1
+OffAllow(off, m, d) == IF off = 0 THEN 0 ELSE (2 * OffUnits(off, m)) \div d + 1
+RelTo(num, d) == 2 + Abs(num) \div d
+FineTol(tol, off, m, d, num) == IF RelTo(num, d) > 1000000 THEN 2000000000 ELSE (tol + OffAllow(off, m, d)) * RelTo(num, d)
+TolLaws == \A off \in {0, 1000, 1048576, 250000000, 1073741824}, m \in {2, 30, 200}, d \in {1, 199, 1000000} :
+             /\ OffAllow(0, m, d) = 0 /\ FineTol(1, 0, m, d, d) = 3                                   \* no offset: nothing added (R2 = 1: 3e-12 absolute)
+             /\ OffAllow(-off, m, d) = OffAllow(off, m, d)
+             /\ OffAllow(off, m, d) <= OffAllow(1073741824, m, d)                                     \* monotone in the offset ...
+             /\ OffAllow(off, m, d) <= OffAllow(off, 200, d)                                          \* ... and in the length
+             /\ OffAllow(off, m, d) >= OffAllow(off, m, 1000000)                                      \* better conditioned (larger D) -> tighter
+             /\ OffAllow(1073741824, 200, 199) <= 8                                                    \* worst case of the generator: 8e-12
+             /\ FineTol(1, off, m, d, 2000000000) <= 2000000000                                        \* never overflows 32 bits
+ASSUME TolLaws
 ====
